@@ -28,7 +28,10 @@ answer with an error or a query, never panic (the error is latched in the middle
 Stream boltnest (c10_nest.go): 36 symbol names that CLASH between the three bolt-backed stores (every ordered pair of the kinds scalar string /
 scalar int64 / fk / string set / fk set / map for every pair of stores) used - as scalar, dotted, in set functions, as sub-query source, in
 in-lists and sort clauses - BEHIND sub-queries nested to depth 1-3 over every order of the stores, in the outer scope and in every scope in
-between, on rows that reach them; parsed against the real store and evaluated through every Store query API."""
+between, on rows that reach them; parsed against the real store and evaluated through every Store query API.
+Streams boltpage / qcurpage (c10_page.go): skip / limit literals of extreme magnitude (2^48+1 .. int64 max, sums that overflow, int64 min) on unsorted, id-sorted
+and field-sorted queries and on sub-queries, through every Store query API / every cursor provider; huge ALLOCATABLE limits (2^28 .. 2^47) in a child process under an
+address-space limit (page_step): evaluation whose memory follows the literal instead of the rows dies there - C10:eval-allocates-by-paging-literal."""
 import json
 import os
 import time
@@ -541,6 +544,9 @@ def main(argv):
                      "ENTRY POINTS: every filter of every stream through zitiql.Parse, ParseWithDebug(false), ParseWithDebug(true), Parse after the debug run, Parse with the ast listener, "
                      "ast.Parse + QueryIds(string) of a boltz store, ast.Parse + QueryEntities(string) of an objectz store: accept / reject / panic per entry point; the syntax-only ones must be equal, "
                      "a typed one never accepts what the one below it refuses, none accepts a lexer error or a non-sentence. "
+                     "boltpage / qcurpage = 7 predicates x 6 scanner-selecting clauses (unsorted, sort by id asc / desc, field keys) x skip / limit literals 2^48+1, 2^53+1, 2^62, int64 max - 807 / - 1 / max, "
+                     "sums that overflow int64, int64 min, -1 (all beyond the largest allocation of the Go runtime: a make() sized by one panics instead of allocating), also as sub-query paging; typing store resp. cursors; "
+                     "allocatable huge limits: coverage key `huge_paging_under_memory_limit`. "
                      "qcur = 15 predicates x 13 sort / skip / limit clauses (every scanner), typing `cursors`: QueryWithCursorC + a walk of the cursor in both directions for EVERY provider of the matrix "
                      "(IteratorMatchingAnyOf / AllOf on a string-set and an fk-set index with every value list of length 0..3 (thorough 0..4) over {absent, absent, key without rows, one row, several rows}, "
                      "OpenValueCursor / OpenKeyCursor, tree sets of 0..3 ids, union / filtered cursors over them and over nil / empty cursors, empty and nil providers, entities bucket, related-entity cursors, "
